@@ -49,6 +49,9 @@ def run_c13_coap(case, R):
     bad = [o != "ok" for o in outs]
     R.nt(any(bad[:-1]) and len(ids) >= 2 or (any(bad) and not all(bad)))
     R.cls(mode + ":coap", f"n={len(ids)}")
+    if len(set(ids)) < len(ids):
+        R.cls("coap:repeated-id")
+        R.nt(len(set(ids)) >= 2)
 
     async def main(loop):
         w = CoapWorld(loop, k=case.get("k", 0))
@@ -174,6 +177,10 @@ def enum_c13_coap(tier):
     for ids in ([13], [13, 10], [10, 13], [12, 13, 15], [13, 12, 15, 16]):
         yield {"ids": ids, "outcomes": ["ok"] * len(ids), "mode": "read", "sel": len(ids)}
         yield {"ids": ids, "outcomes": [3] + ["ok"] * (len(ids) - 1), "mode": "read", "sel": len(ids)}
+    # a read batch that names a characteristic more than once (two entities backed by one characteristic): every requested id still reports its own value
+    for ids in ([10, 10], [10, 10, 12], [10, 12, 10], [12, 10, 10], [10, 10, 12, 15], [15, 10, 10, 16], [10, 12, 12, 15, 16], [16, 16, 16, 10]):
+        for sel in (0, 1):
+            yield {"ids": ids, "outcomes": ["ok"] * len(ids), "mode": "read", "sel": sel}
     for mode, pool in (("write", wr), ("read", rd)):
         for n in (1, 2, 3):
             for vec in itertools.product(OUTCOMES, repeat=n):
@@ -188,6 +195,10 @@ def c13_coap_cases(draw):
     pool = sorted(WRITABLE) if mode == "write" else sorted(READABLE) + sorted(set(CHARS) - READABLE)
     n = draw(st.integers(1, min(6, len(pool))))
     ids = draw(st.lists(st.sampled_from(pool), min_size=n, max_size=n, unique=True))
+    if mode == "read" and draw(st.integers(0, 7)) == 0:       # a repeated id, anywhere in the batch (all items answered)
+        ids = [i for i in ids if i in READABLE] or [sorted(READABLE)[0]]
+        ids.insert(draw(st.integers(0, len(ids))), draw(st.sampled_from(ids)))
+        return {"ids": ids, "outcomes": ["ok"] * len(ids), "mode": mode, "sel": draw(st.integers(0, 1000)), "k": draw(st.integers(0, 9))}
     if draw(st.integers(0, 7)) == 0:           # an id that is not in the accessory's database, anywhere in the batch
         ids.insert(draw(st.integers(0, len(ids))), draw(st.sampled_from([91, 92, 1, 65535])))
         return {"ids": ids, "outcomes": ["ok"] * len(ids), "mode": mode, "sel": draw(st.integers(0, 1000)), "k": draw(st.integers(0, 9))}
